@@ -9,6 +9,7 @@ import (
 	"time"
 
 	"github.com/pion/rtp"
+	"github.com/pion/webrtc/v4/internal/verifhook"
 	"github.com/pion/webrtc/v4/pkg/media"
 )
 
@@ -159,6 +160,7 @@ func (s *SampleBuilder) purgeBuffers(flush bool) {
 		if s.active.empty() {
 			// refill the active based on the filled packets
 			s.active = s.filled
+			verifhook.Observe("sb.active.reinit", s, int64(s.filled.head), int64(s.filled.tail))
 		}
 
 		if s.active.hasData() && (s.active.head == s.filled.head) {
@@ -214,6 +216,7 @@ const secondToNanoseconds = 1000000000
 func (s *SampleBuilder) buildSample(purgingBuffers bool) *media.Sample {
 	if s.active.empty() {
 		s.active = s.filled
+		verifhook.Observe("sb.active.reinit", s, int64(s.filled.head), int64(s.filled.tail))
 	}
 
 	if s.active.empty() {
